@@ -313,11 +313,7 @@ func Input(l *InputSharedVars, g *GlobalVarsMain, hPath *HFilePath, driConfig *C
 								g.BRKZ[l.ANZBREG-1] = ValAsFloat(SLAGtoken[2], Bereg, SLAGtoken[2])
 								BREGDAT := SLAGtoken[3]
 								_, g.ZTBR[l.ANZBREG-1] = g.Datum(BREGDAT)
-
-								///!warning may Beginn not yet initialized
-								if g.ZTBR[l.ANZBREG-1] < g.BEGINN {
-									l.ANZBREG--
-								}
+								// events dated before the simulation start are dropped once the start date is known (see below)
 								SCHLAG, SLAGtoken, valid = NextLineInut(0, scannerIrrFile, strings.Fields)
 							}
 
@@ -586,6 +582,20 @@ func Input(l *InputSharedVars, g *GlobalVarsMain, hPath *HFilePath, driConfig *C
 				// ! -- Setzen des Simulationsbeginns für Zeitschleife
 				// set simulation start for time loop
 				g.BEGINN = g.ERNTE[0]
+				// irrigation events were read before the start date was known: drop those dated before the simulation start
+				if !g.AUTOIRRI && l.IRRIGAT {
+					kept := 0
+					for i := 0; i < l.ANZBREG; i++ {
+						if g.ZTBR[i] >= g.BEGINN {
+							g.ZTBR[kept], g.BREG[kept], g.BRKZ[kept] = g.ZTBR[i], g.BREG[i], g.BRKZ[i]
+							kept++
+						}
+					}
+					for i := kept; i < l.ANZBREG; i++ {
+						g.ZTBR[i], g.BREG[i], g.BRKZ[i] = 0, 0, 0
+					}
+					l.ANZBREG = kept
+				}
 				// ! Ernte der 1. Frucht = Düngung Nr. 1 mit Ernterückständen
 				// Harvest of first crop = Fertilization nr. 1 with harvest residue
 				g.ZTDG[0] = g.ERNTE[0]
